@@ -129,16 +129,16 @@ def run(ctx):
         if a["probes"] != b["probes"]:
             ctx.violation("replay: outputs still differ", rp)
         return
-    nsess = 14 if quick else 120
+    nsess = 14 if quick else 40
     lengths = [15, 31, 47, 1, 2, 14, 16, 30, 32] + [r.randrange(1, 41) for _ in range(nsess)]
     lengths = lengths[:nsess]
     probes = []
     for _ in range(2 if quick else 3):
         fen = r.choice(fens)
-        go = f"go depth {r.randrange(6, 9 if quick else 11)}" if r.random() < 0.7 else f"go nodes {r.choice([20000, 100000])}"
+        go = f"go depth {r.randrange(6, 9 if quick else 10)}" if r.random() < 0.7 else f"go nodes {r.choice([20000, 100000])}"
         probes.append((fen, go))
     # one heavy probe: enough nodes for the replacement scheme (hence the used table size / index mapping) to matter at Hash 8
-    probes.append((r.choice(chessgen.SEED_FENS[1:11]), f"go nodes {400000 if quick else 1500000}"))
+    probes.append((r.choice(chessgen.SEED_FENS[1:11]), f"go nodes {400000 if quick else 800000}"))
     nfresh = 2 * len(probes)          # every probe twice, each in its own freshly started process
     jobs = [([], [p]) for p in probes for _ in range(2)] + [(prior_session(r, fens, n, [p[0] for p in probes], block_last=(i % 3 == 1)), probes) for i, n in enumerate(lengths)]
     with cf.ThreadPoolExecutor(max(2, vlib.NCPU // 2)) as ex:
